@@ -94,6 +94,7 @@ def make_sim(rebound, cfg):
                 vz=cfg["vz"][i], r=cfg["r"][i], hash=1000 + i)
     sim.dt_last_done = cfg["dt"]
     sim.rand_seed = cfg["seed"]
+    sim.N_active = cfg.get("nact", -1)
     return sim
 
 
